@@ -257,6 +257,16 @@ def _monomial(t):
     return [path_of(t)], []
 
 
+_ROUNDING = ("round", "int", "floor", "ceil", "trunc", "_inch_to_twip", "inch_to_twip")
+
+
+def _unrounded(t):
+    """x if the term is round(x) / int(x) / a unit conversion helper applied to x, else None"""
+    if isinstance(t, CallSym) and t.meth in _ROUNDING and t.args:
+        return t.args[0]
+    return None
+
+
 def r08_4(ctx: Ctx) -> None:
     """Utils._col_widths returns, in column order, the running sum of rel_width_i * col_width / sum(rel_widths) (so the last boundary is
     col_width), and a cell's \\cellx is round(width * 1440).  Both are compared as symbolic expressions: one generic element of
@@ -292,10 +302,43 @@ def r08_4(ctx: Ctx) -> None:
                     acc = [p for p in tparts(E) if isinstance(p, Carried)]
                     new_acc = sps[0]["end_env"].get(acc[0].path) if acc else None
             r0 = T.unwrap(ret, names=("list", "tuple"))
-            if E is None and isinstance(r0, CallSym) and r0.recv is None and r0.meth == "accumulate" and len(r0.args) == 1 and not r0.kw and isinstance(r0.args[0], CompSym) \
-                    and r0.args[0].elt is not None:
+            post = None
+
+            def running_sums(t):
+                """the comprehension C of summands if t is the sequence of running sums x0, x0+x1, ... of C: accumulate(C), or
+                list(accumulate(C, initial=0))[1:] (the leading 0 dropped again)"""
+                t = T.unwrap(t, names=("list", "tuple"))
+                drop = False
+                if isinstance(t, T.SliceSym) and t.lo == 1 and t.hi is None:
+                    t, drop = T.unwrap(t.base, names=("list", "tuple")), True
+                if isinstance(t, CallSym) and t.recv is None and t.meth == "accumulate" and len(t.args) == 1 and isinstance(T.unwrap(t.args[0], names=("list", "tuple")), CompSym):
+                    kw = dict(t.kw)
+                    init0 = "initial" in kw and isinstance(kw["initial"], (int, float)) and not isinstance(kw["initial"], bool) and kw["initial"] == 0
+                    if (not kw and not drop) or (set(kw) == {"initial"} and init0 and drop):
+                        c_ = T.unwrap(t.args[0], names=("list", "tuple"))
+                        return c_ if c_.elt is not None else None
+                return None
+            comp = running_sums(r0)
+            if comp is None and isinstance(ret, CompSym) and ret.elt is not None and running_sums(ret.source) is not None:
+                comp = running_sums(ret.source)            # a map over the running sums: [f(s) for s in accumulate(C)]
+                post = None if ret.elt is ret.var else ret
+                E = None
+            if comp is not None and post is not None:
+                # the running sum is taken over converted summands and converted back afterwards
+                inner = _unrounded(comp.elt)
+                num, den = _monomial(inner if inner is not None else comp.elt)
+                facts = {x for x in num + den}
+                done = True
+                ctx.instance("R08.4", fi.where(), f"_col_widths: boundaries `{path_of(post.elt)[:60]}` of the running sums of `{path_of(comp.elt)[:90]}`")
+                if inner is not None and comp.var.path in facts and p_w in facts:
+                    ctx.violation("R08.4", fi.short, "formula: summand " + path_of(comp.elt)[:60], fi.where(),
+                                  f"_col_widths accumulates `{path_of(comp.elt)[:100]}`: every column's width is rounded / converted to another unit BEFORE the running sum, so the summand is not "
+                                  "the exact rel_width * col_width / sum(rel_widths); the rounding errors add up and the last boundary is no longer col_width")
+                else:
+                    ctx.gap("R08.4", f"Utils._col_widths: boundaries are `{path_of(post.elt)[:50]}` of running sums of `{path_of(comp.elt)[:60]}`; not comparable with the running sum of rel_width * col_width / sum(rel_widths)")
+                continue
+            if E is None and comp is not None:
                 # itertools.accumulate(step for w in rel_widths): the running sums of the steps, in order, starting from the first step
-                comp = r0.args[0]
                 ctx.assume("R08.4: itertools.accumulate(xs) yields the running sums x0, x0+x1, ... in order")
                 acc = Carried("running sum", None, 0)
                 E = T.LinSym(f"{path_of(comp.elt)} + running sum", None, tuple(sorted({path_of(comp.elt): 1, acc.path: 1}.items())), tuple(sorted([comp.elt, acc], key=path_of))) \
@@ -334,6 +377,12 @@ def r08_4(ctx: Ctx) -> None:
             if len(rest) != 1 or len(step) != 1 or rest[step[0].path] != 1:
                 ctx.violation("R08.4", fi.short, "formula", fi.where(), f"_col_widths: a boundary is the previous one plus `{rest}`, expected plus rel_width * col_width / sum(rel_widths)")
                 continue
+            if _unrounded(step[0]) is not None:
+                n2, d2 = _monomial(_unrounded(step[0]))
+                if elem.path in n2 + d2 and p_w in n2 + d2:
+                    ctx.violation("R08.4", fi.short, "formula: summand " + path_of(step[0])[:60], fi.where(),
+                                  f"_col_widths adds `{path_of(step[0])[:100]}` per column: the width is rounded / converted BEFORE the running sum, not the exact rel_width * col_width / sum(rel_widths)")
+                    continue
             num, den = _monomial(step[0])
             num, den = [x for x in num if x not in ("1", "1.0")], [x for x in den if x not in ("1", "1.0")]
             total = f"sum({p_rel})"
